@@ -70,8 +70,11 @@ ASSUMPTIONS = [
     "a silently wrong map is not",
     "termini_unknown flags, tidy_start/tidy_end, Span.value and the serialisation dicts are exercised only",
     "FeatureMap set-theoretic clauses: 26 theorems in Props/C08FMap.lean over Model/FMap.lean (tied by the `fmap` / `from_locations` "
-    "correspondence streams) plus the spec-level differential; FeatureMap.__add__/__mul__/__truediv__/get_covering_span/without_gaps "
-    "are neither modelled nor proved",
+    "correspondence streams) + 13 in Props/C08Ops.lean over Model/FMapOps.lean (span predicates, + * / without_gaps "
+    "reversed_relative_to get_covering_span; tied by translation and the `spanops` / `fmops` streams) plus the spec-level differential; "
+    "from_spans, to_feature_map, with_termini_unknown, rich dict / json round trips, array forms of shared_gaps / minus_gaps, "
+    "make_seq_feature_map, FeatureMap[int] / [list of slices] are checked at spec level only (no model); zeroed / "
+    "absolute_position / relative_position are not checked",
 ]
 
 
@@ -1137,6 +1140,10 @@ def _check_layout(out, s, ivs, deep):
             if want["gp"]:
                 out["nontrivial"].add(("get", s, a, b))
     bump(out, "spec_layout_class", lc)
+    # the same string through the other constructors / converters (from_spans, to_feature_map, termini, rich dict, ...)
+    from .c08_ops import check_indel_extras
+
+    check_indel_extras(out, s, m, useq, deep)
     return m, useq
 
 
@@ -1150,6 +1157,10 @@ def _spec_binary(out, s, t, ma, mb):
         add_failure(out, "spec", what, inp, expected, got, sig=sig)
 
     out["evaluations"] += 1
+    if len(s) == len(t):
+        from .c08_ops import check_binary_array_forms
+
+        check_binary_array_forms(out, s, t, ma, mb)
     ends_gap = s.endswith("-") and t.startswith("-")
     _result_ok(out, lambda: ma + mb, s + t, "a + b is not the map of the concatenated string",
                "add:" + ("gap-meets-gap" if ends_gap else "other"), inp)
@@ -1206,7 +1217,7 @@ def _spec_add3(out, s, t, u, ma, mb, mc):
 
 def _spec_fmap(out, rng, count):
     """feature-map clauses: set-theoretic meaning on random maps (forward, negative-strand and mixed span lists)"""
-    from .c08_ops import check_fm_ops, check_span_ops
+    from .c08_ops import check_fm_ops, check_fmap_subscripts, check_span_ops
 
     for _ in range(count):
         kind = rng.choice(FM_KINDS)
@@ -1228,6 +1239,7 @@ def _spec_fmap(out, rng, count):
         # + * / without_gaps get_covering_span of the map; predicates / slicing / scaling / mirroring of one of its spans
         other = [x for x in _rand_fm(rng, rng.choice(FM_KINDS))[0] if len(x) == 1 or x[1] <= pl]
         check_fm_ops(out, spans, pl, other, _cover_real)
+        check_fmap_subscripts(out, spans, pl, _cover_real, rng)
         real = [s for s in spans if len(s) > 1]
         if real and rng.random() < 0.15:
             s, e, r = rng.choice(real)
@@ -1677,7 +1689,13 @@ def _replay_into_maps(out, inp):
     if "spans" in inp:
         from .c08_ops import check_fm_ops
 
+        import random
+
+        from .c08_ops import check_fmap_subscripts
+
         check_fm_ops(out, inp["spans"], inp["pl"], inp.get("other"), _cover_real)
+        check_fmap_subscripts(out, inp["spans"], inp["pl"], _cover_real, random.Random(0),
+                              ints=[inp["i"]] if "i" in inp else None, pieces=inp.get("pieces"))
         ix = inp.get("index")
         if isinstance(ix, list):
             # a bare list of index spans
